@@ -39,7 +39,7 @@ from .shim import shimmed, Recorder
 # =============================================================================== claims
 
 class Claim(object):
-    __slots__ = ('label', 'kind', 'a', 'b', 'when', 'scale', 'tol', 'note')
+    __slots__ = ('label', 'kind', 'a', 'b', 'when', 'scale', 'tol', 'note', 'lemma')
 
     def __init__(self, label, kind, a, b=None, when=None, scale=None, tol=None, note=''):
         self.label = label
@@ -50,6 +50,7 @@ class Claim(object):
         self.scale = scale
         self.tol = tol
         self.note = note
+        self.lemma = False
 
 
 class BaseCtx(object):
@@ -84,6 +85,13 @@ class BaseCtx(object):
 
     def true(self, label, cond, when=None):
         self.claims.append(Claim(label, 'true', cond, None, when))
+
+    def lemma(self, label, a, b, kind='eq'):
+        """an auxiliary fact: decided like any claim; once the solver has proved it (unsat) it is added to the assumptions
+        of the LATER claims of the same path (a two-step proof, each step discharged by the solver)"""
+        c = Claim(label, kind, a, b)
+        c.lemma = True
+        self.claims.append(c)
 
     def defined(self, label, value, when=None):
         """the value is produced without any undefined operation (division by zero, root/log of a negative,
@@ -540,6 +548,9 @@ def _decide(ob, tier, res):
                     if va.status == 'unsat':
                         res['discharged'] += 1
                         res['stage_a'] = res.get('stage_a', 0) + 1
+                        if getattr(c, 'lemma', False):
+                            zbase = zbase + [zc]
+                            res['lemmas_used'] = res.get('lemmas_used', 0) + 1
                         if len(res['samples']) < 3:
                             res['samples'].append({'obligation': ob.id, 'claim': label, 'path_condition': '(not needed: proved from the domain alone)',
                                                    'assertion': T.show(ct, 300), 'verdict': 'unsat', 'seconds': round(va.seconds, 3)})
@@ -562,6 +573,9 @@ def _decide(ob, tier, res):
                                        'seconds': round(v.seconds, 3)})
             if v.status == 'unsat':
                 res['discharged'] += 1
+                if getattr(c, 'lemma', False):
+                    zbase = zbase + [zc]
+                    res['lemmas_used'] = res.get('lemmas_used', 0) + 1
             elif v.status == 'unknown':
                 res['inconclusive'].append({'label': label, 'reason': 'solver: unknown (%s) after %.0fs' % (v.reason, v.seconds)})
             else:
